@@ -255,7 +255,11 @@ func runC09(seed int64, tier string, outDir string) *result {
 		for s := 0; s < steps; s++ {
 			r := rng.Intn(n)
 			if n == 1 || rng.Intn(5) > 1 {
-				d.append(r, fmt.Sprintf("h%d-%d-%d", hi, r, s), 1<<uint(rng.Intn(7)))
+				payload := fmt.Sprintf("h%d-%d-%d", hi, r, s)
+				if rng.Intn(9) == 0 {
+					payload = "" // empty payloads are legal and must reload like any other entry
+				}
+				d.append(r, payload, 1<<uint(rng.Intn(7)))
 			} else {
 				d.join(r, rng.Intn(n))
 			}
